@@ -2,7 +2,7 @@
 builder flow, type dedup, special-mode resolver details, name dispatch, additions)."""
 import os
 
-from vlib.facts import conditional_ancestors, every_iteration, pat_variants, walk, peel, place_path, pat_alternatives, CheckError, REPO, lit_int, diverges
+from vlib.facts import conditional_ancestors, every_iteration, pat_variants, guard_conditions, field_of_pattern_binding, binding_site, walk, peel, place_path, pat_alternatives, CheckError, REPO, lit_int, diverges
 from vlib.paths import paths, normal_paths
 from vlib.report import RuleResult
 from rules.nopanic import snippet
@@ -32,19 +32,19 @@ def delete_pairing(F):
             r.violate("%s | element delete" % fn["path"], F.loc(fn), "%s does not delete exactly the element addressed by its id parameter" % name)
         # if let <Kind>::Import(Imported{import_id, ..}) = self.<coll>.get_kind(<param>) { self.imports.delete(*import_id) }
         ok2 = False
-        for n in walk(fn["body"]):
-            if n.get("k") == "If" and n["cond"].get("k") == "LetExpr":
-                pat = n["cond"]["pat"]
-                if pat.get("variant") == "Import" and (pat.get("adt") or "").endswith(kind):
-                    binds = {b["hid"]: fname for s in walk(pat) if s.get("k") == "Struct" for fname, b in s.get("fields", []) if isinstance(b, dict) and b.get("k") == "Binding"}
-                    init = n["cond"]["init"]
-                    from_same = any(x.get("k") == "Path" and x.get("res", {}).get("hid") == pid["hid"] for x in walk(init)) and \
-                        any(x.get("k") == "MethodCall" and x["method"] in ("get_kind", "kind", "get") for x in walk(init))
-                    for c in walk(n["then"]):
-                        if c.get("k") == "MethodCall" and c["method"] == "delete" and (place_path(c["recv"]) or "") == "self.imports":
-                            a = peel(c["args"][0])
-                            if a.get("k") == "Path" and binds.get(a["res"].get("hid")) == "import_id" and from_same:
-                                ok2 = True
+        # `self.imports.delete(X)`: X is the import_id of the element looked up by this function's own id parameter, and the
+        # call sits under the test that the element is an Import — written as if-let, match or let-else, with the id taken
+        # from a destructuring pattern or as `imported.import_id`
+        for c in walk(fn["body"]):
+            if c.get("k") == "MethodCall" and c["method"] == "delete" and (place_path(c["recv"]) or "") == "self.imports" and c["args"]:
+                pat, scr = field_of_pattern_binding(fn["body"], c["args"][0], "import_id")
+                if pat is None:
+                    continue
+                is_import_pat = any(x.get("variant") == "Import" and (x.get("adt") or "").endswith(kind) for x in walk(pat))
+                from_same = any(x.get("k") == "Path" and x.get("res", {}).get("hid") == pid["hid"] for x in walk(scr)) and \
+                    any(x.get("k") == "MethodCall" and x["method"] in ("get_kind", "kind", "get", "get_kind_mut") for x in walk(scr))
+                if is_import_pat and from_same:
+                    ok2 = True
         r.ob(ok2, {"fn": name, "marks its own import deleted": ok2})
         if not ok2:
             r.violate("%s | import delete" % fn["path"], F.loc(fn), "%s does not mark the import of an imported element deleted via that element's own import_id: the import would stay in the import section (shifting every index) or a different import would be removed" % name)
@@ -107,7 +107,9 @@ def name_dispatch(F):
     for nm in ("set_local_fn_name", "set_imported_fn_name"):
         f2 = F.one_fn(name=nm, self_adt="Functions")
         r.analysed.append(f2["path"])
-        ok2 = any((x.get("k") == "Match" and "FuncKind" in x.get("scrut_ty", "")) or (x.get("k") == "MethodCall" and x["method"] in ("is_local", "is_import")) for x in walk(f2["body"]))
+        ok2 = any((x.get("k") == "Match" and "FuncKind" in x.get("scrut_ty", ""))
+                  or (x.get("k") in ("LetExpr", "Let") and "FuncKind" in ((x.get("init") or {}).get("ty") or "") and x["pat"].get("k") in ("TupleStruct", "Struct", "Or"))
+                  or (x.get("k") == "MethodCall" and x["method"] in ("is_local", "is_import", "unwrap_local", "unwrap_local_mut")) for x in walk(f2["body"]))
         r.ob(ok2)
         if not ok2:
             r.violate("%s | dispatch" % f2["path"], F.loc(f2), "%s does not test the function's kind" % nm)
@@ -120,37 +122,34 @@ def convert_flows(F):
                    "replace/convert paths: the signature guard dominates the import→local conversion; the old element is deleted (arming re-indexing and marking its import) before its kind is flipped; the new ImportedFunction records the import id returned by add_import, the caller's function id and type id, and the Import carries TypeRef::Func of that same type id")
     rp = F.one_fn(name="replace_import_in_module_with_tag", self_adt="FunctionBuilder")
     r.analysed.append(rp["path"])
-    # guard: the call convert_import_fn_to_local sits in the then-branch of `params == && results ==`
+    # guard: whenever convert_import_fn_to_local is called, both `params` and `results` have been compared for equality
+    # with the import's type — as an enclosing `if a == b && c == d`, or as a preceding guard clause
+    # `if a != b || c != d { panic }` (or two separate ones)
     ok = False
-
-    def rec(node, guarded):
-        nonlocal ok
-        if isinstance(node, list):
-            for v in node:
-                rec(v, guarded)
-            return
-        if not isinstance(node, dict):
-            return
-        if node.get("k") == "If":
-            c = node["cond"]
-            g = guarded
-            if c.get("k") != "LetExpr":
-                names = {x["name"] for x in walk(c) if x.get("k") == "Field"} | {x["method"] for x in walk(c) if x.get("k") == "MethodCall"}
-                eqs = [x for x in walk(c) if x.get("k") == "Binary" and x["op"] == "=="]
-                if {"params", "results"} <= names and len(eqs) >= 2 and any(x.get("k") == "Binary" and x["op"] == "&&" for x in walk(c)):
-                    g = True
-            rec(node["cond"], guarded)
-            rec(node["then"], g)
-            if "else" in node:
-                rec(node["else"], guarded)
-            return
-        if node.get("k") in ("MethodCall", "Call") and (node.get("inst") or node.get("callee") or "").endswith("convert_import_fn_to_local"):
-            ok = guarded
-        for v in node.values():
-            if isinstance(v, (dict, list)):
-                rec(v, guarded)
-
-    rec(rp["body"], False)
+    calls = [c for c in walk(rp["body"]) if c.get("k") in ("MethodCall", "Call") and (c.get("inst") or c.get("callee") or "").endswith("convert_import_fn_to_local")]
+    for c in calls:
+        established = set()
+        for pol, cond in guard_conditions(rp["body"], c):
+            if pol == "pat":
+                continue
+            # +cond with `==` joined by && ; −cond with `!=` joined by ||
+            want_op, joiner = ("==", "&&") if pol else ("!=", "||")
+            other_join = "||" if pol else "&&"
+            if any(x.get("k") == "Binary" and x.get("op") == other_join for x in walk(cond)):
+                continue
+            for x in walk(cond):
+                if x.get("k") == "Binary" and x.get("op") == want_op:
+                    nm_ = {y["name"] for y in walk(x) if y.get("k") == "Field"} | {y["method"] for y in walk(x) if y.get("k") == "MethodCall"}
+                    for f_ in ("params", "results"):
+                        if f_ in nm_:
+                            established.add(f_)
+                if x.get("k") == "MethodCall" and x["method"] in (("eq",) if pol else ("ne",)):
+                    nm_ = {y["name"] for y in walk(x) if y.get("k") == "Field"} | {y["method"] for y in walk(x) if y.get("k") == "MethodCall"}
+                    for f_ in ("params", "results"):
+                        if f_ in nm_:
+                            established.add(f_)
+        if {"params", "results"} <= established:
+            ok = True
     r.ob(ok, {"signature guard dominates conversion": ok})
     if not ok:
         r.violate("%s | unguarded" % rp["path"], F.loc(rp), "the import is replaced without (or not under) the params/results equality check")
@@ -197,12 +196,12 @@ def convert_flows(F):
     if not found:
         raise CheckError("convert_local_fn_to_import_with_tag: ImportedFunction literal not found")
     okt = False
-    for s in walk(fn["body"]):
-        if s.get("k") == "Struct" and (s.get("adt") or "").endswith("module_imports::Import") and "rest" not in s:
-            tyv = dict(s["fields"]).get("ty")
-            c = peel(tyv)
-            if c.get("k") == "Call" and (c.get("fres") or {}).get("variant") == "Func":
-                okt = any(x.get("k") == "Path" and x.get("res", {}).get("hid") == ph.get("ty_id") for x in walk(c["args"][0]))
+    # wherever the Import literal is built (here, in add_import, or in a constructor helper), the TypeRef handed over by
+    # this function is `TypeRef::Func(<the caller's ty_id>)`
+    for c in walk(fn["body"]):
+        if c.get("k") == "Call" and (c.get("fres") or {}).get("variant") == "Func" and "TypeRef" in ((c.get("fres") or {}).get("adt") or "") and c["args"]:
+            if any(x.get("k") == "Path" and x.get("res", {}).get("hid") == ph.get("ty_id") for x in walk(c["args"][0])):
+                okt = True
     r.ob(okt)
     if not okt:
         r.violate("%s | Import.ty" % fn["path"], F.loc(fn), "the new Import is not TypeRef::Func of the caller's ty_id")
@@ -337,50 +336,84 @@ def type_dedup(F):
                 if not ok:
                     r.violate("%s | writes %s" % (fn["path"], pp), F.loc(fn, n), "%s mutates %s outside ModuleTypes::new/add_type: indices or contents of existing types can change" % (fn["path"], pp))
     r.count("type_store_writes", n_w)
-    # add_type: inserts under !already_exists
-    guarded = False
-    for n in walk(at["body"]):
-        if n.get("k") == "If":
-            c = peel(n["cond"])
-            if c.get("k") == "Unary" and c["op"] == "!" and peel(c["a"]).get("res", {}).get("name") == "already_exists":
-                ins = [x for x in walk(n["then"]) if x.get("k") == "MethodCall" and x["method"] in ("insert", "push")]
-                outside = [x for x in walk(at["body"]) if x.get("k") == "MethodCall" and x["method"] in ("insert", "push") and not any(x is y for y in ins)]
-                guarded = len(ins) == 2 and not outside
-    r.ob(guarded)
+    # add_type registers a type only when no equal type is known: every write to self.types / self.groups sits under a test
+    # that establishes absence from the dedup map — `!contains_key(..)` (directly or through a bool local), the `Vacant` arm
+    # of `types_map.entry(..)`, or the `None` arm of `types_map.get(..)`
+    def _absent_guard(node):
+        for pol, cond in guard_conditions(at["body"], node):
+            if pol == "pat":
+                pat, scr = cond
+                on_map = any(x.get("k") == "MethodCall" and x["method"] in ("entry", "get", "get_mut") and (place_path(x["recv"]) or "").endswith("types_map") for x in walk(scr))
+                vac = any(x.get("variant") in ("Vacant", "None") for x in walk(pat))
+                if on_map and vac:
+                    return True
+                continue
+            # bool condition: contains_key on types_map, possibly via a local
+            exprs = [cond]
+            for x in walk(cond):
+                if x.get("k") == "Path" and x.get("res", {}).get("r") == "local":
+                    _, init, _k = binding_site(at["body"], x["res"]["hid"])
+                    if init is not None:
+                        exprs.append(init)
+            has_ck = any(y.get("k") == "MethodCall" and y["method"] == "contains_key" and (place_path(y["recv"]) or "").endswith("types_map") for e_ in exprs for y in walk(e_))
+            if not has_ck:
+                continue
+            # a disjunction (for a positive test) / conjunction (for a negated one) lets other cases through
+            weak = "||" if pol else "&&"
+            if any(y.get("k") == "Binary" and y.get("op") == weak for y in walk(cond)):
+                continue
+            negs = sum(1 for y in walk(cond) if y.get("k") == "Unary" and y.get("op") == "!")
+            absent_when_true = (negs % 2 == 1)
+            if (pol and absent_when_true) or ((not pol) and not absent_when_true):
+                return True
+        return False
+
+    writes = [x for x in walk(at["body"]) if x.get("k") == "MethodCall" and x["method"] in ("insert", "push") and (place_path(x["recv"]) or "") in ("self.types", "self.groups")]
+    guarded = len(writes) >= 2 and all(_absent_guard(w) for w in writes)
+    r.ob(guarded, {"type store writes": len(writes), "all under an absence test on the dedup map": guarded})
     if not guarded:
-        r.violate("%s | unguarded insert" % at["path"], F.loc(at), "add_type inserts into types/groups outside the `!already_exists` guard")
-    # already_exists = types_map.contains_key(&ty); ty_id = *entry(ty.clone()).or_insert(TypeID(id))
-    okc = any(x.get("k") == "MethodCall" and x["method"] == "contains_key" and (place_path(x["recv"]) or "") == "self.types_map" for x in walk(at["body"])) and \
-        any(x.get("k") == "MethodCall" and x["method"] == "or_insert" for x in walk(at["body"]))
+        r.violate("%s | unguarded insert" % at["path"], F.loc(at), "add_type inserts into types/groups outside a test that the type is absent from the dedup map")
+    okc = any(x.get("k") == "MethodCall" and x["method"] in ("contains_key", "entry", "get") and (place_path(x["recv"]) or "").endswith("types_map") for x in walk(at["body"]))
     r.ob(okc)
     if not okc:
         r.violate("%s | dedup" % at["path"], F.loc(at), "add_type does not consult types_map for an existing identical type")
-    # the id a new entry is registered under: `or_insert(TypeID(X))` — X must be self.types.len() (the number of types,
-    # not the size of the dedup map, which is smaller when the parsed module repeats a type), whether it is computed in
-    # add_type itself or passed by every caller
+    # the id a new entry is registered under: the key of `self.types.insert(ID, ty)` — it must be self.types.len() (the number
+    # of types, not the size of the dedup map, which is smaller when the parsed module repeats a type), whether it is computed
+    # in add_type itself or passed by every caller
     def _is_types_len(e):
         e = peel(e)
-        while isinstance(e, dict) and e.get("k") == "Cast":
-            e = peel(e["a"])
+        while isinstance(e, dict) and (e.get("k") == "Cast" or (e.get("k") == "Call" and (e.get("fres") or {}).get("adt", "").endswith("TypeID") and e.get("args"))):
+            e = peel(e["a"] if e.get("k") == "Cast" else e["args"][0])
         return isinstance(e, dict) and e.get("k") == "MethodCall" and e["method"] == "len" and (place_path(e["recv"]) or "") == "self.types"
 
     id_param = None
     id_local_ok = None
     for x in walk(at["body"]):
-        if x.get("k") == "MethodCall" and x["method"] in ("or_insert", "or_insert_with", "insert") and x["args"]:
-            if x["method"] == "insert" and not (place_path(x["recv"]) or "").endswith("types_map"):
-                continue
-            for y in walk(x["args"][-1]):
+        if x.get("k") == "MethodCall" and x["method"] == "insert" and (place_path(x["recv"]) or "") == "self.types" and x["args"]:
+            keyexpr = x["args"][0]
+            if _is_types_len(keyexpr):
+                id_local_ok = True
+            for y in walk(keyexpr):
                 if y.get("k") == "Path" and y.get("res", {}).get("r") == "local":
-                    hid = y["res"]["hid"]
-                    for j, pm in enumerate(at["params"]):
-                        if pm["pat"].get("hid") == hid:
-                            id_param = j
-                    for st in walk(at["body"]):
-                        if st.get("k") == "Let" and st["pat"].get("hid") == hid and "init" in st:
-                            id_local_ok = _is_types_len(st["init"])
-                elif _is_types_len(y):
-                    id_local_ok = True
+                    # follow the local to its definition(s): a let, or the value stored in the dedup map for this type
+                    seen_, todo_ = set(), [y["res"]["hid"]]
+                    while todo_:
+                        h_ = todo_.pop()
+                        if h_ in seen_:
+                            continue
+                        seen_.add(h_)
+                        for j, pm in enumerate(at["params"]):
+                            if pm["pat"].get("hid") == h_ and (pm.get("ty") or "").replace("&", "") in ("usize", "u32", "ir::id::TypeID"):
+                                id_param = j
+                        _, init, _k = binding_site(at["body"], h_)
+                        if init is not None:
+                            if _is_types_len(init) or any(_is_types_len(z) for z in walk(init) if isinstance(z, dict) and z.get("k") in ("MethodCall", "Cast", "Call")):
+                                id_local_ok = True if id_local_ok is None else id_local_ok
+                            elif any(z.get("k") == "MethodCall" and z["method"] == "len" for z in walk(init)):
+                                id_local_ok = False
+                            for z in walk(init):
+                                if z.get("k") == "Path" and z.get("res", {}).get("r") == "local" and (z.get("ty") or "").replace("&", "").replace("mut ", "") in ("usize", "u32", "ir::id::TypeID"):
+                                    todo_.append(z["res"]["hid"])
     if id_param is None:
         ok = bool(id_local_ok)
         r.ob(ok, {"add_type": "id computed inside add_type", "is self.types.len()": ok})
